@@ -205,29 +205,31 @@ class C18:
         nt = any(graph[f] for f in FILES)
         return {'viol': viol, 'out': got, 'nt': nt, 'tr': 1}
 
-    def finish(self, ctx):
-        """conformance: real CLI with the fake proofreader; the '=== file' lines are the files actually proofread"""
-        seed = ctx['seed']
-        self.init_worker()
-        picks = []
+    def conformance_picks(self, seed):
+        """real CLI with the fake proofreader; the '=== file' lines are the files actually proofread"""
         k = 211 + seed % 17
-        for i, case in enumerate(c for c in self.cases('quick', seed) if c[0] == 'i'):
-            if i % k == seed % k:
-                picks.append(case)
-        picks = picks[:60]
-        viol = []
+        return [c for i, c in enumerate(c for c in self.cases('quick', seed) if c[0] == 'i') if i % k == seed % k][:60]
+
+    def finish(self, ctx):
+        self.init_worker()
         n = 0
-        for case in picks:
-            _, g, si, ki, sp = case
-            graph, d, argv = self.setup_incl(case)
-            want = model_include(graph, STARTS[si], SKIPS[ki])
-            rc, out, err, args = shell.run_cli(argv, {}, {}, shell.lt_answer([]), d)
-            n += 1
-            files = re.findall(r'^=== (\S+)$', err, re.M)
-            if rc != 0 or files != want:
-                viol.append((case, {'clause': 'CLI proofreads exactly the model list (conformance of the in-process driver)',
-                                    'sig': 'C18:include:cli', 'detail': {'argv': argv, 'rc': rc, 'proofread': files, 'expected': want, 'stderr': err[-300:]}}))
-        return {'conformance_replays': n, 'cli_runs': n, 'viol': viol}
+        viol = []
+        for case in self.conformance_picks(ctx['seed']):
+            k, vs = self.conformance_one(case)
+            n += k
+            viol += [(case, v) for v in vs]
+        return {'conformance_replays': n, 'viol': viol}
+
+    def conformance_one(self, case):
+        _, g, si, ki, sp = case
+        graph, d, argv = self.setup_incl(case)
+        want = model_include(graph, STARTS[si], SKIPS[ki])
+        rc, out, err, args = shell.run_cli(argv, {}, {}, shell.lt_answer([]), d)
+        files = re.findall(r'^=== (\S+)$', err, re.M)
+        if rc != 0 or files != want:
+            return 1, [{'clause': 'CLI proofreads exactly the model list (conformance of the in-process driver)',
+                        'sig': 'C18:include:cli', 'detail': {'argv': argv, 'rc': rc, 'proofread': files, 'expected': want, 'stderr': err[-300:]}}]
+        return 1, []
 
     def explain(self, case):
         if case[0] == 'x':
